@@ -118,8 +118,9 @@ def assertion(now, aid='A1', issuer=IDP_A, subject='alice', name_format=NF_TRANS
               session_index='s1', session_nooa=None, class_ref=PASSWORD, authority=None, attrs=DEFAULT_ATTRS,
               advice='', sign=None, alg='sha256', keyinfo=None, style='Z', issue_offset=0, version='2.0',
               subject_extra='', cond_extra='', sp_name_qualifier=None, name_qualifier=None, extra_first='',
-              sig_ref=None, digalg=None):
-    """`sign` only inserts the template; build() fills it."""
+              sig_ref=None, digalg=None, more_authn=()):
+    """`sign` only inserts the template; build() fills it.  more_authn: SessionNotOnOrAfter offsets (or None) of further
+    AuthnStatements placed after the first."""
     if confirmations is None:
         confirmations = [confirmation(now, style=style)]
     iss = '<saml:Issuer>%s</saml:Issuer>' % esc(issuer) if issuer is not None else ''
@@ -158,6 +159,11 @@ def assertion(now, aid='A1', issuer=IDP_A, subject='alice', name_format=NF_TRANS
             ctx += ''.join('<saml:AuthenticatingAuthority>%s</saml:AuthenticatingAuthority>' % esc(a)
                            for a in authority)
         au = '<saml:AuthnStatement%s><saml:AuthnContext>%s</saml:AuthnContext></saml:AuthnStatement>' % (at, ctx)
+        for n, off in enumerate(more_authn):
+            at2 = ' AuthnInstant="%s" SessionIndex="s%d"' % (ts(now + authn_instant, style), n + 2)
+            if off is not None:
+                at2 += ' SessionNotOnOrAfter="%s"' % ts(now + off, style)
+            au += '<saml:AuthnStatement%s><saml:AuthnContext>%s</saml:AuthnContext></saml:AuthnStatement>' % (at2, ctx)
     ast = ''
     if attrs:
         ast = '<saml:AttributeStatement>%s</saml:AttributeStatement>' % ''.join(
